@@ -275,3 +275,28 @@ func (u *Unit) staticVal(v ssa.Value) Term {
 	}
 	panic(unsupported(fmt.Sprintf("table entry %s (%T) is not static", v.Name(), v)))
 }
+
+// boundTargets: methods whose bound value (x.M used as a function value) has the given signature.
+func (e *Engine) boundTargets(sig *types.Signature) map[*ssa.Function]bool {
+	out := map[*ssa.Function]bool{}
+	e.funcCandidates(sig) // fills addrTaken
+	for f := range e.addrTaken {
+		if f.Synthetic == "" || !strings.HasSuffix(f.Name(), "$bound") {
+			continue
+		}
+		if !types.Identical(f.Signature, sig) {
+			continue
+		}
+		// the wrapped method: first static callee in the wrapper body
+		for _, b := range f.Blocks {
+			for _, ins := range b.Instrs {
+				if c, ok := ins.(ssa.CallInstruction); ok {
+					if m := c.Common().StaticCallee(); m != nil {
+						out[m] = true
+					}
+				}
+			}
+		}
+	}
+	return out
+}
